@@ -129,8 +129,8 @@ def lf3(F, R):
         okv = has_sub(v, lambda q: q[0] == "call" and q[1] and q[1].endswith("Iterator::next"))
         R.require(okv, p, "store-value", "stored value is not an item of the byte iterator", p.loc(b, i))
         # guard: free >= encoded.len()
-        ok, _ = guarded(p, b, lambda g: g.kind == "bool" and g.term[0] == "cmp" and g.term[1] == "Lt" and g.truth is False and tstr(g.term[2]) == "(*self).free"
-                        and has_sub(g.term[3], lambda q: q[0] == "call" and q[1] and q[1].endswith("::len") and has_sub(q, lambda z: z[0] == "call" and z[1] and z[1].endswith("encode_utf8"))))
+        ok, _ = guarded(p, b, g_cmp("Lt", False, lambda x: tstr(x) == "(*self).free",
+                                    lambda y: has_sub(y, lambda q: q[0] == "call" and q[1] and q[1].endswith("::len") and has_sub(q, lambda z: z[0] == "call" and z[1] and z[1].endswith("encode_utf8")))))
         R.require(ok, p, "space-guard", "bytes are stored without the check `self.free < encoded_ch.len()` on the UTF-8 encoded length of the whole character", p.loc(b, i))
     # free -= 1 exactly once per stored byte: in the innermost loop containing the store
     decs = [(b, i) for b, i, s in p.stmts() if s["k"] == "Assign" and s["p"]["proj"] and p.place_str(s["p"]) == "(*self).free" and tmatch(p.term_of_rvalue(s["rv"], b), ("bin", "Sub", "_", ("c", 1))) is not None]
@@ -150,7 +150,18 @@ def lf3(F, R):
                 if t["k"] == "Call" and (callee_of(t) or "").endswith("Iterator::next"):
                     itv = strip_refs(p.term_of_operand(t["args"][0], bb))
                     defs = var_def_terms(p, itv[1]) if itv[0] == "var" else [itv]
-                    okl = any(tmatch(d, ("call", "into_iter", [("call", "rev", [("call", "bytes", "_")])])) is not None and "encode_utf8" in tstr(d) for d in defs)
+                    def chain(d, names):
+                        """d = names[0](names[1](..(x))) through references; returns x or None"""
+                        for nm in names:
+                            d = strip_refs(d)
+                            if not (d[0] == "call" and d[1] and d[1].split("::")[-1] == nm and d[2]):
+                                return None
+                            d = d[2][0]
+                        return strip_refs(d)
+                    def from_encode(d):
+                        x = chain(d, ["into_iter", "rev", "bytes"]) or chain(d, ["into_iter", "rev", "iter", "as_bytes"])
+                        return x is not None and x[0] == "call" and x[1] and x[1].endswith("encode_utf8")
+                    okl = any(from_encode(d) for d in defs)
         R.require(okl, p, "byte-loop", "bytes must be taken from encoded_ch.bytes().rev() of one encode_utf8 result", p.loc(stores[0][0]))
     # overflow set on the failing edge with an immediate return
     ov = [(b, i) for b, i, s in p.stmts() if s["k"] == "Assign" and s["p"]["proj"] and p.place_str(s["p"]) == "(*self).overflow" and p.term_of_rvalue(s["rv"], b)[:2] == ("c", 1)]
@@ -159,16 +170,30 @@ def lf3(F, R):
     for nm in ("new", "clear"):
         f = F.fn(LFN + "::" + nm)
         got = {}
+        raw = {}
         for b, i, s in f.stmts():
             if s["k"] != "Assign":
                 continue
             if s["p"]["proj"]:
-                got[f.place_str(s["p"]).split(".")[-1]] = tstr(f.term_of_rvalue(s["rv"], b))
+                k = f.place_str(s["p"]).split(".")[-1]
+                raw[k] = f.term_of_rvalue(s["rv"], b)
+                got[k] = tstr(raw[k])
             elif s["rv"]["k"] == "Aggregate" and s["rv"].get("adt", "").endswith("LfnBuffer"):
                 for fld, o in zip(s["rv"]["fields"], s["rv"]["ops"]):
-                    got[fld] = tstr(f.term_of_operand(o, b))
-        ok = ("len" in got.get("free", "") or "PtrMetadata" in got.get("free", "")) and got.get("overflow") == "0" and got.get("unpaired_surrogate", "").startswith("None")
-        R.require(ok, f, nm + ":reset", "%s must set free = inner.len(), overflow = false, unpaired_surrogate = None; got %s" % (nm, got), f.loc(0))
+                    raw[fld] = f.term_of_operand(o, b)
+                    got[fld] = tstr(raw[fld])
+        # free is exactly the length of the storage slice: as_str() shows inner[free..], so anything smaller exposes bytes
+        # of the caller's storage that were never written (and from_utf8_unchecked is applied to them)
+        fr = strip_refs(raw.get("free", ("c", None, None)))
+        whole = False
+        if fr[0] == "call" and fr[1] and fr[1].endswith("slice::len") and len(fr[2]) == 1:
+            sl = strip_refs(fr[2][0])
+            if nm == "new":
+                whole = sl[:2] == ("arg", 1) and strip_refs(raw.get("inner", ("c", None, None)))[:2] == ("arg", 1)
+            else:
+                whole = sl[0] == "place" and strip_refs(sl[1])[:2] == ("arg", 1) and [e for e in sl[2] if isinstance(e, str) and e != "*"] == ["inner"]
+        ok = whole and got.get("overflow") == "0" and got.get("unpaired_surrogate", "").startswith("None")
+        R.require(ok, f, nm + ":reset", "%s must set free = inner.len() (the whole storage, nothing else), overflow = false, unpaired_surrogate = None; got %s" % (nm, got), f.loc(0))
 
 
 @rule("LF4", ["C17"], floor=6,
